@@ -3,8 +3,14 @@
    Lane algebra: the slli/xor prefix-xor trick gives w[i-Nk] ^ w[i-Nk+1] ^ .. and the shuffled
    aeskeygenassist lane gives SubWord(RotWord(w[i-1])) ^ Rcon (0xff) or SubWord(w[i-1]) (0xaa). *)
 From Coq Require Import NArith ZArith List Arith Bool Lia ZifyNat.
-From LCP Require Import Gen.Repo_aes Crypto.AesSpec Crypto.AesProofs Accel.AesNi Crypto.AesCtrModel
-  Crypto.AesRepo Crypto.AesCtrProofs Accel.AesNiProofs.
+From LCP Require Import Gen.Repo_aes.
+From LCP Require Import Crypto.AesSpec.
+From LCP Require Import Crypto.AesProofs.
+From LCP Require Import Accel.AesNi.
+From LCP Require Import Crypto.AesCtrModel.
+From LCP Require Import Crypto.AesRepo.
+From LCP Require Import Crypto.AesCtrProofs.
+From LCP Require Import Accel.AesNiProofs.
 Import ListNotations.
 Local Open Scope N_scope.
 
